@@ -31,11 +31,41 @@ SYSTEMATIC = [
 ]
 
 
+S = ("super",)
+# (number of templates in the chain, nest of the chain's base template)
+INHERIT = [
+    (1, [T("a"), ("blockd", [T("é"), S, ("assign", 0, "abc")]), ("echo", 0)]),
+    (2, [T("a"), ("block", [[T("b")]]), ("block", [[T("c"), S, S], [T("€")]])]),
+    (2, [("block", [[("assign", 0, "aaaaaaaa"), T("["), S, T("]"), ("assign", 1, "cccc"), ("echo", 2), ("echo", 0)],
+                    [("assign", 2, "pppppp"), T("P"), ("echo", 0)]])]),
+    (3, [("assign", 0, "zz"), ("for", 2, [("block", [[("capture", 1, [S, T("t")]), ("echo", 1), S],
+                                                      [("for", 2, [S, ("assign", 2, "m")]), ("echo", 0)],
+                                                      [T("b"), ("assign", 0, "q"), S]])]), ("echo", 0), ("echo", 2)]),
+    (2, [T("xx"), ("block", [[T("a"), ("capture", 0, [T("é"), S, S]), ("echo", 0), ("ifchanged", [S]), ("ifchanged", [S])],
+                             [T("€€"), ("ifchanged", [T("q")]), ("ifchanged", [T("q")])]])]),
+    (3, [("tablerow", 2, [("block", [[("include", [S, ("assign", 0, "i")]), ("render", [S, T("r")]), ("echo", 0)],
+                                      [("assign", 1, "mid"), ("block", [[T("n"), S, ("echo", 1)], [T("N"), ("assign", 1, "w")]]), ("echo", 1)],
+                                      [T("base")]])])]),
+    (2, [("assign", 0, "g"), ("block", [[("for", 2, [("capture", 1, [S])]), ("echo", 1), ("echo", 0)], [("echo", 0), ("assign", 0, "hh"), T("-")]]),
+         ("echo", 0), ("render", [("blockd", [T("d"), S])]), ("call", [("blockd", [T("never")])])]),
+    (3, [("block", [[T("a"), S, ("assign", 0, "x")], [T("b"), S, ("assign", 1, "yy")], [T("c"), S, ("assign", 2, "zzz")]]),
+         ("block", [[("assign", 0, "1"), S, ("assign", 0, "22"), S], [("assign", 1, "333"), ("echo", 0)]])]),
+]
+
+
 def gen_nests(ck: Check):
+    """(label, number of templates in the chain, nest of the chain's base template)."""
     for n in SYSTEMATIC:
-        yield "systematic", L.normalize(n)
-    for _ in range(160 if ck.quick else 2000):
-        yield "random", L.gen_tree(ck.rng, maxdepth=3, lengths=(0, 1, 2, 3), width=3)
+        yield "systematic", 1, L.normalize(n)
+    for levels, n in INHERIT:
+        yield "inherit", levels, L.normalize(n)
+    rng = ck.rng
+    for _ in range(110 if ck.quick else 1400):
+        yield "random", 1, L.gen_tree(rng, maxdepth=3, lengths=(0, 1, 2, 3), width=3)
+    for i in range(90 if ck.quick else 1200):
+        levels = (1, 2, 2, 3, 3)[i % 5]
+        yield f"chain{levels}", levels, L.gen_tree(rng, maxdepth=3, lengths=(0, 1, 2, 3), width=3,
+                                                    level=(levels - 1 if levels > 1 else None), blocks=2.0)
 
 
 def judge_out(limit, S, s, a):
@@ -83,10 +113,14 @@ def lax_output(printed, limit, mode, use_async):
 def run(ck: Check) -> None:
     ck.rule = (
         "18 systematic nests + seeded random trees (depth <= 3, up to 3 children) over text with 1-4 byte characters, {{ var }}, assign, "
-        "capture, ifchanged, for, tablerow, include, include-with-array, render, render-for and macro calls; for each, the unlimited "
+        "capture, ifchanged, for, tablerow, include, include-with-array, render, render-for and macro calls; plus 8 systematic and seeded random "
+        "CHAINS of 1..3 templates (extends; block tags with up to 3 definitions anywhere in the base template and inside other definitions, "
+        "{{ block.super }} anywhere in a definition - inside loops, captures, ifchanged, partials, macros -, block tags without a stack), "
+        "printed from the model's nests; for each, the unlimited "
         "output size S is measured and output_stream_limit swept over 0..2S (every value when 2S <= 40, else 25 values incl. S-1, S, S+1), "
         "and local_namespace_limit swept over 0, every observed namespace size t (t-1, t), and 2*max; sync and async; "
-        "output limits 0, S/2, S-1, S and three namespace limits also in WARN and LAX mode (errors dropped per top-level node). "
+        "output limits 0, S/2, S-1, S and three namespace limits also in WARN and LAX mode (errors dropped per top-level node), the latter "
+        "again with 300-character render arguments named like the template's variables (oracle and model). "
         "Non-trivial = the render writes or assigns something; distinct = distinct (nest, limits)."
     )
     ck.exhaustive = False
@@ -94,11 +128,13 @@ def run(ck: Check) -> None:
         "Coq 8.16.1 kernel + vm_compute",
         "harness: tree generator, Liquid/partials printer, Gallina printer, UTF-8 length and namespace walks of the oracle (props/_limits.py, props/c07.py)",
         "oracle (not modelled): sys.getsizeof - the measured size of every assigned value is recorded by a RenderContext subclass "
-        "(Environment.template_class / BoundTemplate.context_class hooks) and handed to the model as a stream",
+        "(Environment.template_class / BoundTemplate.context_class hooks) and handed to the model as a stream; the namespaces alive at an "
+        "assignment are those of the render contexts the frames of the Python call stack refer to (sys._getframe)",
         "modelled not verified: str.encode('utf-8') length (1/2/3/4-byte rule), StringIO, dict update order",
     ]
     ck.assumptions = [
-        "values are strings; texts contain no whitespace-only literal; no break/continue; cycle, increment and extends/block are outside the model",
+        "values are strings; texts contain no whitespace-only literal; no break/continue; cycle and increment are outside the model; "
+        "block names are distinct, no required blocks, extends is the first tag of a template",
         "sys.getsizeof(value) does not change between the assignment and later namespace checks",
     ]
     ck.proof()
@@ -109,15 +145,16 @@ def run(ck: Check) -> None:
     def add(nest, lim, printed, s, sizes, v, extra):
         if v is not None:
             ck.violation("impl-violation", v[0], f"{printed[0]!r} partials {printed[1]!r} limits {lim.as_dict()}: {v[1]}",
-                         dict({"main": nest, "limits": lim.as_dict(), "template": printed[0], "partials": printed[1], "sync": s}, **extra))
+                         dict({"main": nest, "levels": levels, "limits": lim.as_dict(), "template": printed[0], "partials": printed[1], "sync": s}, **extra))
         if s[0] == "err" and s[1].startswith("other:"):
             ck.violation("impl-violation", "c07-foreign-error:" + s[1], f"{printed[0]!r}: {s[1]}",
-                         {"main": nest, "limits": lim.as_dict(), "template": printed[0], "partials": printed[1], "sync": s})
+                         {"main": nest, "levels": levels, "limits": lim.as_dict(), "template": printed[0], "partials": printed[1], "sync": s})
             return
         sw.add(lim, sizes, s, explained=v is not None)
 
-    for label, nest in gen_nests(ck):
-        printed = L.to_source(nest)
+    GLOB = {f"v{i}": "G" * 300 for i in range(4)}
+    for label, levels, nest in gen_nests(ck):
+        printed = L.to_source(nest, levels)
         base, bsizes = L.run_impl(nest, nolim, False, printed)
         ck.count(f"{label}.{'unlimited-fails' if base[0] == 'err' else 'unlimited-ok'}")
         for k in L.kinds_in(nest):
@@ -198,10 +235,9 @@ def run(ck: Check) -> None:
                          f"under local_namespace_limit {limit} (sizes after each assignment, refused ones included: {true_log})")
                 add(nest, lim, printed, s, sizes, v, {"async": a, "measured": true_log, "kind": "ns-tolerant"})
                 # the same, with render-time GLOBALS named like the template's variables (a refused assignment must leave no copy of
-                # the shadowed global behind in the local namespace); oracle only: the model has no globals
-                shadow = (printed[0], printed[1], dict(printed[2], **{f"v{i}": "G" * 300 for i in range(4)}))
-                gs, _, gtrue = L.run_impl(nest, lim, False, shadow, want_true=True)
-                ga, _, gatrue = L.run_impl(nest, lim, True, shadow, want_true=True)
+                # the shadowed global behind in the local namespace); oracle and model (Limits.run_prog ... glob)
+                gs, gsizes, gtrue = L.run_impl(nest, lim, False, printed, want_true=True, glob=GLOB)
+                ga, _, gatrue = L.run_impl(nest, lim, True, printed, want_true=True, glob=GLOB)
                 ck.note_case((nest, lim.key(), "shadowed-globals"), nontrivial=True)
                 ck.count(f"ns.{mode}.shadowed-globals." + ("completed" if gs[0] == "out" else "raised"))
                 gv = None
@@ -213,15 +249,18 @@ def run(ck: Check) -> None:
                           f"{max(gtrue + gatrue)} measured bytes under local_namespace_limit {limit} (after each assignment: {gtrue})")
                 if gv is not None and sum(1 for x in ck.violations if x.signature == gv[0]) < 3:
                     ck.violation("impl-violation", gv[0], f"{printed[0]!r} partials {printed[1]!r} limits {lim.as_dict()}: {gv[1]}",
-                                 {"main": nest, "limits": lim.as_dict(), "template": printed[0], "partials": printed[1], "sync": gs,
+                                 {"main": nest, "levels": levels, "limits": lim.as_dict(), "template": printed[0], "partials": printed[1], "sync": gs,
                                   "async": ga, "measured": gtrue, "kind": "ns-tolerant", "shadow_globals": True})
+                if not (gs[0] == "err" and gs[1].startswith("other:")):
+                    sw.add(lim, gsizes, gs, explained=gv is not None, glob=GLOB)
     g = sw.groups[len(sw.groups) // 2]
     r = g[2][len(g[2]) // 2]
     ck.sample({"template": g[1][0], "partials": g[1][1], "limits": r[0].as_dict(), "observed": r[2][:2], "measured_sizes": r[1]})
-    for nest, printed, lim, sizes, s in sw.mismatches(ck, "c07", chunk=12)[:3]:
-        model = ck.coq_eval(L.IMPORTS, [f"run_case ({L.g_case(lim, nest, sizes)})"])[0]
+    for nest, printed, lim, sizes, s, glob in sw.mismatches(ck, "c07", chunk=12)[:3]:
+        model = ck.coq_eval(L.IMPORTS, [f"run_case ({L.g_case(lim, L.expand(nest), sizes, printed[3], glob)})"])[0]
         ck.violation("correspondence", "c07-correspondence",
-                     f"model Limits.run_case and the implementation disagree on {printed[0]!r} partials {printed[1]!r} limits {lim.as_dict()}",
+                     f"model Limits.run_case and the implementation disagree on {printed[0]!r} partials {printed[1]!r} limits {lim.as_dict()}"
+                     + (" with globals v0..v3" if glob else ""),
                      {"main": nest, "limits": lim.as_dict(), "template": printed[0], "partials": printed[1], "impl": s, "sizes": sizes,
                       "model": model[:400],
                       "broken": "correspondence Limits.run_case ~ render under output_stream_limit / local_namespace_limit "
@@ -242,13 +281,14 @@ def replay(data) -> int:
         return 1
     nest = case["main"]
     lim = L.Limits.from_dict(case["limits"])
-    printed = L.to_source(nest)
+    printed = L.to_source(nest, case.get("levels", 1))
+    glob = None
     if case.get("shadow_globals"):
-        printed = (printed[0], printed[1], dict(printed[2], **{f"v{i}": "G" * 300 for i in range(4)}))
+        glob = {f"v{i}": "G" * 300 for i in range(4)}
         print("render data: 300-character globals v0..v3")
-    base, _ = L.run_impl(nest, L.Limits(), False, printed)
-    s, _, true_log = L.run_impl(nest, lim, False, printed, want_true=True)
-    a, _ = L.run_impl(nest, lim, True, printed)
+    base, _ = L.run_impl(nest, L.Limits(), False, printed, glob=glob)
+    s, _, true_log = L.run_impl(nest, lim, False, printed, want_true=True, glob=glob)
+    a, _ = L.run_impl(nest, lim, True, printed, glob=glob)
     print("template:", printed[0], "partials:", printed[1], "limits:", lim.as_dict())
     print("sync :", s)
     print("async:", a)
